@@ -167,7 +167,7 @@ def run(ck):
                'distinct by its full configuration + interval and non-trivial when the run has >= 2 blocks')
     ck.check_props(required=['C19_split_compose_partial', 'C19_split_compose_refuted', 'C19_run_entry_frame', 'C19_rerun_equal',
                              'C19_rerun_equal_after_history', 'C19_two_controllers_independent', 'C19_rerun_equal_refuted_stale_inactive',
-                             'C19_rerun_equal_refuted_rng', 'C19_two_controllers_refuted_class_counter'])
+                             'C19_rerun_equal_refuted_rng', 'C19_two_controllers_refuted_class_counter', 'C19_shared_description_frame'])
 
     findings = {}     # json(match) -> {'what', 'match', 'examples': [...], 'count', 'no_input'}
 
